@@ -189,6 +189,8 @@ fn explore(ctx: &Ctx) -> Outcome {
     // large inputs, each described by a recipe (replayable): repeats longer than the largest LZ11
     // length (65 808), long literal runs, noise followed by long repeats, sizes around 2^20..2^24
     rest.extend(lzfam::big_inputs(ctx.tier, true));
+    rest.extend(lzfam::dense_runs(ctx.tier));
+    rest.extend(lzfam::twin_blocks());
     let t = rest
         .par_iter()
         .fold(Tally::new, |mut t, inp| {
@@ -221,6 +223,22 @@ fn explore(ctx: &Ctx) -> Outcome {
             }
         }
         layers.push(json!({"family": "call histories: all ordered pairs of 9 inputs on one thread", "pairs": hist_inputs.len() * hist_inputs.len(), "completed": true}));
+        // near-identical inputs back to back: the same length, the same first and last bytes, one
+        // byte in the middle changed (incompressible content, so the streams have equal length
+        // too) — a result remembered under a cheap fingerprint of the previous call would be reused
+        for n in [200usize, 600, 5000, 70_000] {
+            let base = lzfam::norepeat(n.min(60_000), 5).into_iter().cycle().take(n).collect::<Vec<u8>>();
+            let mut twin = base.clone();
+            twin[n / 2] ^= 0x5A;
+            for (x, y) in [(&base, &twin), (&twin, &base)] {
+                t.cases += 1;
+                t.calls += 2;
+                let _ = util::catch(|| (LZ13CompressionFormat {}).compress(x).ok().and_then(|s| (LZ13CompressionFormat {}).decompress(&s).ok()));
+                if let Some((sig, summary)) = judge(y, &mut t) {
+                    t.violate(format!("after-previous-call:{}", sig), format!("round trip of a {}-byte input right after the round trip of its one-byte-different twin: {}", n, summary), json!({"twin_history": n, "twin_first": std::ptr::eq(x, &twin)}));
+                }
+            }
+        }
         total.absorb(t);
     }
     total.sample(json!({"input_hex": "", "note": "the empty input (run in a subprocess)"}));
@@ -262,6 +280,16 @@ fn replay(ctx: &Ctx, case: &Value) -> Vec<Violation> {
     }
     if case["truncated"].as_bool().unwrap_or(false) {
         return vec![];
+    }
+    if let Some(n) = case["twin_history"].as_u64() {
+        let n = n as usize;
+        let base = lzfam::norepeat(n.min(60_000), 5).into_iter().cycle().take(n).collect::<Vec<u8>>();
+        let mut twin = base.clone();
+        twin[n / 2] ^= 0x5A;
+        let (x, y) = if case["twin_first"].as_bool().unwrap_or(false) { (&twin, &base) } else { (&base, &twin) };
+        let _ = util::catch(|| (LZ13CompressionFormat {}).compress(x).ok().and_then(|s| (LZ13CompressionFormat {}).decompress(&s).ok()));
+        let mut t = Tally::new();
+        return judge(y, &mut t).map(|(sig, summary)| vec![Violation { sig: format!("after-previous-call:{}", sig), summary, case: case.clone() }]).unwrap_or_default();
     }
     if let Some(h) = case["history"].as_array() {
         let x = util::unhex(h[0].as_str().unwrap_or(""));
